@@ -5,7 +5,7 @@ def one(spec):
     out = []
     for pid in pids.split(","):
         ev = f"/tmp/pyvc_scratch/ev_{seed}_{pid}"
-        p = subprocess.run(["dev/with_seed.sh", seed, "./check", pid, "--tier", "quick"], cwd="/verif", capture_output=True, text=True, env=dict(os.environ, VERIF_PROCS="4", VERIF_OUT=f"/tmp/pyvc_scratch/out_{seed}"))
+        p = subprocess.run(["dev/with_seed.sh", seed, "./check", pid, "--tier", "quick"], cwd=os.path.dirname(os.path.dirname(os.path.abspath(__file__))), capture_output=True, text=True, env=dict(os.environ, VERIF_PROCS="4", VERIF_OUT=f"/tmp/pyvc_scratch/out_{seed}"))
         lines = [l for l in p.stdout.splitlines() if l.startswith(("VIOLATION", "UNDECIDED", "CHECKER", "OK"))]
         viol = [l for l in lines if l.startswith("VIOLATION")]
         out.append(f"{seed} vs {pid}: rc={p.returncode} violations={len(viol)} " + (" | ".join(l.split('replays/')[-1] if 'replays/' in l else l[:150] for l in (viol[:3] or lines[:2]))))
